@@ -205,6 +205,27 @@ def _seed_audit(pid: str, out) -> Dict[str, Any]:
     return rows
 
 
+def _register_inline_functions(repo) -> None:
+    """Module-level helper functions of the analysed tree whose body is (docstring +) simple assignments + one returned expression and
+    whose name is unique in the tree: the algebra translates a call to one of them as that expression (helper extraction)."""
+    import ast as _ast
+    from . import algebra
+    seen = {}
+    for f in repo.all_functions():
+        if f.cls is not None or not isinstance(f.node, _ast.FunctionDef):
+            continue
+        body = [s_ for s_ in f.node.body if not (isinstance(s_, _ast.Expr) and isinstance(s_.value, _ast.Constant))]
+        if not body or not isinstance(body[-1], _ast.Return) or body[-1].value is None:
+            continue
+        if not all(isinstance(s_, _ast.Assign) and len(s_.targets) == 1 and isinstance(s_.targets[0], _ast.Name) for s_ in body[:-1]):
+            continue
+        if f.node.args.vararg or f.node.args.kwarg:
+            continue
+        seen.setdefault(f.name, []).append(f.node)
+    algebra.INLINE_FUNCTIONS.clear()
+    algebra.INLINE_FUNCTIONS.update({k: v[0] for k, v in seen.items() if len(v) == 1})
+
+
 def run_check(pid: str, tier: str, replay: Optional[str] = None, repo_root: Optional[str] = None,
               write_evidence: bool = True, quiet: bool = False) -> int:
     t0 = time.time()
@@ -216,6 +237,7 @@ def run_check(pid: str, tier: str, replay: Optional[str] = None, repo_root: Opti
     try:
         repo = Repo(repo_root or REPO_ROOT)
         ctx = Ctx(pid, tier, seed, repo)
+        _register_inline_functions(repo)
         mod = importlib.import_module(f'rules.{pid.lower()}')
         mod.run(ctx)
         if not ctx.obligations:
